@@ -292,6 +292,11 @@ func (c *Cache) getSubscription(name string, subscribe bool) (*EventSubscription
 			eventSub.enqueueEvent(subj, payload)
 		})
 		if err != nil {
+			// Release the count taken above. Otherwise the entry would never
+			// be removed from the cache.
+			eventSub.mu.Lock()
+			eventSub.removeCount(1)
+			eventSub.mu.Unlock()
 			return nil, err
 		}
 
@@ -323,6 +328,13 @@ func (c *Cache) mqUnsubscribe(v interface{}) {
 	eventSub := v.(*EventSubscription)
 	c.mu.Lock()
 	defer c.mu.Unlock()
+
+	// Assert the event subscription has not already been removed from the
+	// cache. It may have been queued again while a previous unsubscribe was
+	// waiting for the cache mutex.
+	if c.eventSubs[eventSub.ResourceName] != eventSub {
+		return
+	}
 
 	if !eventSub.mqUnsubscribe() {
 		return
